@@ -83,7 +83,7 @@ impl Property for C05 {
         "each case = 1..8 type-directed expression trees (depth <= 6) over every operator, literal form (dec, 0x/$, 0b/%, 0o, _ grouping, leading zeros, \
          upper-case digits), magnitudes of 0..200 bits and negatives, shifts/slices with boundary and invalid amounts, strings with every escape form and \
          2/3/4-byte characters through every encoding function, ~2.5% deliberately ill-typed sub-expressions; each printed twice (minimal parentheses from \
-         the precedence table, and full parentheses). Oracle = reference evaluator R-EXPR (arithmetic definitions of two's-complement operators): all \
+         the precedence table, and full parentheses). Plus six DIRECTED enumerated cases (round 13): concatenation whose left operand is a sized NEGATIVE value (`x: sN / iN`, N = 4, 8, 13, bound to -1, -2, -2^(N-1), -2^(N-1)+1, 3) with right operands of 1, 8 and 12 bits, consumed by value (`>> 3`, `> 5`, `+ 1`, `/ 3`, a wider slice) and plainly; expectation computed directly. Oracle = reference evaluator R-EXPR (arithmetic definitions of two's-complement operators): all \
          error-free expressions of a case are assembled in one program and observed as `name = expr` in the symbols output (value), `#d expr` (bits and \
          size; an unsized value must be rejected by #d) and `(expr) ? 1 : 0` (booleans); each expression the model calls an error is assembled alone and \
          must fail. Non-trivial expression = depth >= 3 with >= 2 operator classes, or an operand > 64 bits, or a negative operand of a shift/slice/bitwise \
@@ -105,6 +105,67 @@ impl Property for C05 {
     }
     fn random_cases(&self, tier: Tier) -> u64 {
         tier.pick(600_000, 4_000_000)
+    }
+    fn enumerated(&self, _tier: Tier) -> u64 {
+        6
+    }
+    /// round 13, directed: concatenation whose LEFT operand is a sized NEGATIVE value (a typed parameter sN / iN bound
+    /// to a negative argument - the only way to such a value), used by VALUE afterwards (shift, comparison, addition,
+    /// division, a wider slice): `x @ r` joins exactly the N bits of x and the bits of r, a non-negative number.
+    fn run_enumerated(&self, index: u64, ctx: &mut CaseCtx) -> Verdict {
+        let n = [4usize, 8, 13][(index % 3) as usize];
+        let ty = if index / 3 == 0 { 's' } else { 'i' };
+        let rights: [(usize, &str, u64); 3] = [(8, "0x00", 0), (1, "0b1", 1), (12, "0xabc", 0xabc)];
+        let mut rules = String::from("#ruledef\n{\n");
+        let mut lines = String::new();
+        let mut want: Vec<bool> = Vec::new();
+        let push = |want: &mut Vec<bool>, v: &BigInt, w: usize| {
+            for k in (0..w).rev() {
+                want.push(((v >> k) & BigInt::from(1)) == BigInt::from(1));
+            }
+        };
+        let half = 1i64 << (n - 1);
+        let values: Vec<i64> = vec![-1, -2, -half, -half + 1, 3];
+        for (ri, (m, rtext, r)) in rights.iter().enumerate() {
+            let w = n + m + 8;
+            rules.push_str(&format!("    shrq{ri} {{x: {ty}{n}}} => ((x @ {rtext}) >> 3)`{w}\n"));
+            rules.push_str(&format!("    cmpq{ri} {{x: {ty}{n}}} => ((x @ {rtext}) > 5 ? 0x01 : 0x00)\n"));
+            rules.push_str(&format!("    addq{ri} {{x: {ty}{n}}} => ((x @ {rtext}) + 1)`{w}\n"));
+            rules.push_str(&format!("    divq{ri} {{x: {ty}{n}}} => ((x @ {rtext}) / 3)`{w}\n"));
+            rules.push_str(&format!("    wideq{ri} {{x: {ty}{n}}} => (x @ {rtext})`{w}\n"));
+            rules.push_str(&format!("    plainq{ri} {{x: {ty}{n}}} => x @ {rtext}\n"));
+            for v in &values {
+                let u: BigInt = ((BigInt::from(*v) & ((BigInt::from(1) << n) - 1)) << *m) | BigInt::from(*r);
+                lines.push_str(&format!("shrq{ri} {v}\ncmpq{ri} {v}\naddq{ri} {v}\ndivq{ri} {v}\nwideq{ri} {v}\nplainq{ri} {v}\n"));
+                push(&mut want, &(&u >> 3), w);
+                push(&mut want, &BigInt::from(if u > BigInt::from(5) { 1 } else { 0 }), 8);
+                push(&mut want, &(&u + 1), w);
+                push(&mut want, &(&u / 3), w);
+                push(&mut want, &u, w);
+                push(&mut want, &u, n + m);
+            }
+        }
+        let src = format!("{}}}\n{}", rules, lines);
+        ctx.set_hash_str(&src);
+        ctx.nontrivial = true;
+        ctx.label("directed:concat-of-negative-sized-operand");
+        ctx.render(|| json!({"source": src, "model": sut::bits_hex(&want)}));
+        let out = sut::assemble_src(&src, &Opts::default());
+        ctx.evals += 1;
+        match &out {
+            AsmOutcome::Ok(ok) if ok.bits == want => Verdict::Pass,
+            AsmOutcome::Ok(ok) => {
+                ctx.want_render = true;
+                ctx.render(|| json!({"source": src, "model": sut::bits_hex(&want)}));
+                let at = ok.bits.iter().zip(want.iter()).position(|(a, b)| a != b);
+                Verdict::fail("concat-negative-sized|bits-differ", format!("{}{}: model {} / assembler {} (first difference at bit {:?})", ty, n, sut::bits_hex(&want), sut::bits_hex(&ok.bits), at))
+            }
+            other => {
+                ctx.want_render = true;
+                ctx.render(|| json!({"source": src, "model": sut::bits_hex(&want)}));
+                Verdict::fail("concat-negative-sized|valid-program-rejected", other.brief())
+            }
+        }
     }
     fn run(&self, t: &mut Tape, ctx: &mut CaseCtx) -> Verdict {
         let allow_quote = !ctx.is_known("escaped-quote|unexpected-error");
